@@ -1,2 +1,3 @@
 pub mod c12;
 pub mod c09;
+pub mod c04;
